@@ -21,11 +21,20 @@ pub struct KnownEntry {
 #[derive(Clone, Debug, Default)]
 pub struct Known {
     entries: Vec<KnownEntry>,
+    /// set for the replay of a known finding's probe: no exclusion of any kind may apply
+    probe: bool,
 }
 
 impl Known {
     pub fn empty() -> Known {
         Known::default()
+    }
+    /// the context in which the probe of a known finding is replayed
+    pub fn for_probe() -> Known {
+        Known { entries: vec![], probe: true }
+    }
+    pub fn is_probe(&self) -> bool {
+        self.probe
     }
     pub fn load(path: &Path, property: &str) -> Known {
         let mut entries = vec![];
@@ -54,7 +63,7 @@ impl Known {
                 }
             }
         }
-        Known { entries }
+        Known { entries, probe: false }
     }
     pub fn is_open(&self, key: &str) -> bool {
         self.entries.iter().any(|e| e.key == key)
